@@ -418,6 +418,12 @@ OwnersOK(e) ==
   /\ \A i \in 1..Len(e.cands) : IsCanonRes(e.cands[i], e.res)
   /\ Cardinality({i \in 1..Len(e.classes) : e.classes[i] = "deep"}) <= 1
 
+\* local closure at any resolution: each side of the cell is shared end point for end point with the cell across it
+LocalMeshOK(e) ==
+  /\ IsCanonRes(e.id, e.res)
+  /\ e.sides = (IF e.res = 1 THEN 3 ELSE 5) /\ Len(e.twinned) = e.sides /\ Len(e.nbrs) = e.sides
+  /\ \A i \in 1..e.sides : e.twinned[i] /\ IsCanonRes(e.nbrs[i], e.res) /\ e.nbrs[i] # e.id
+
 \* a batch of cells (vertex ids snapped by the harness, counter-clockwise) added to the growing surface
 MeshCellsResult(e, mesh) == AddCells(e.cells, 1, mesh)
 MeshCellsShapeOK(e) == \A k \in 1..Len(e.cells) : IsCanonRes(e.cells[k].id, e.res)
